@@ -833,12 +833,62 @@ class Gen:
         self.q += k
         return ["adv", k]
 
+    def big_write(self, obj):
+        """a write that certainly qualifies"""
+        o = self.objs[obj]
+        t = o["type"]
+        if t.startswith("binary"):
+            v = 1 - self.cur[obj]
+        elif t.startswith("multiState"):
+            v = self.cur[obj] % 4 + 1
+        else:
+            v = abs(self.cur[obj]) + 2 * max(o["inc"], 1) + 16
+        self.cur[obj] = v
+        self.last[obj] = v
+        return ["w", [[obj, "pv", v]]]
+
+    def probe(self):
+        """directed interleavings around pending deferred work (no drain in between):
+        cancel / renew / subscribe while an execution or an initial notification is pending"""
+        rng = self.rng
+        live = [k for k in self.keys if k[2] in self.writable]
+        if not live:
+            return [self.sub_action(), ["run"]]
+        addr, pid, obj = rng.choice(live)
+        other = (rng.randrange(self.cfg["nsub"]), rng.choice([1, 2, 7]), obj)
+        if other not in self.keys:
+            self.keys.append(other)
+        sub = lambda k, conf, life: ["sub", k[0], k[1], k[2], conf, life]
+        life = rng.choice([0, 1, 5, 30])
+        if life:
+            self.deadlines.append(self.q + 4 * life)
+        pat = rng.randrange(6)
+        if pat == 0:
+            acts = [sub(other, False, 0), ["run"], self.big_write(obj), sub((addr, pid, obj), None, None),
+                    self.big_write(obj), ["run"]]
+        elif pat == 1:
+            acts = [self.big_write(obj), sub(other, rng.choice([True, False]), life), self.big_write(obj), ["run"]]
+        elif pat == 2:
+            acts = [sub(other, False, 0), ["run"], sub((addr, pid, obj), True, life), sub((addr, pid, obj), None, None),
+                    sub((addr, pid, obj), False, life), ["run"]]
+        elif pat == 3:
+            acts = [sub((addr, pid, obj), rng.choice([True, False]), life), self.big_write(obj), ["run"]]
+        elif pat == 4:
+            acts = [self.big_write(obj), sub((addr, pid, obj), rng.choice([True, False, None]), life), ["run"]]
+        else:
+            acts = [self.big_write(obj), sub((addr, pid, obj), None, None), sub(other, None, None),
+                    self.big_write(obj), ["run"], sub(other, True, life), self.big_write(obj), ["run"]]
+        return acts
+
     def __iter__(self):
         rng = self.rng
         while self.left > 0:
             self.left -= 1
             r = rng.random()
-            if r < 0.30:
+            if not self.disc and r < 0.12:
+                for a in self.probe():
+                    yield a
+            elif r < 0.30:
                 yield self.sub_action()
                 if self.disc or rng.random() < 0.6:
                     yield ["run"]
@@ -889,10 +939,13 @@ class Judge:
         self.free = set()
         self.initials = {}         # key -> subscribe/renew events since the last drain (wild mode)
         self.failed = False
+        self.failed_kinds = set()
 
     def fail(self, kind, i, what, **kw):
-        if not self.failed:
-            self.ctx.fail(kind, trim(self.case, i), what, action_index=i, **kw)
+        # the first failure of each kind per scenario (later ones are usually consequences)
+        if kind not in self.failed_kinds and len(self.failed_kinds) < 4:
+            self.ctx.fail(kind, trim(self.case, i), what, action_index=i, scenario=self.case.get("name", ""), **kw)
+        self.failed_kinds.add(kind)
         self.failed = True
 
     # safety clauses: hold for every interleaving
